@@ -29,3 +29,5 @@ def run(ctx):
     base.run_correspondence(ctx, PROFILE, ctx.scale(500, 6000))
     scns = [TW.gen_nhood(ctx.seed, i, ["clusters", "tree"], "C12") for i in range(ctx.scale(400, 5000))]
     base.run_twin(ctx, "cells_vs_fresh_policy", scns)
+    huge = [TW.gen_huge(ctx.seed, i, ["clusters", "tree"], "C12", sizes=[(1100, 30, 65), (1500, 700, 65)]) for i in range(ctx.scale(4, 40))]
+    base.run_twin(ctx, "cells_vs_fresh_policy", huge, shrink=False)
